@@ -65,7 +65,7 @@ class C06(Sim):
             "non-trivial = >= 2 meshes alive and >= 2 transform/edit calls")
     FAULT_KINDS = ["aliasing_schedule"]
     PROBES = ["merge_same_twice", "merge_result_edited", "copy_edited", "source_edited_after_copy", "open_ring", "boundary_producer",
-              "subdivision_producer", "int_coordinates", "inverse_pair", "flatten", "normalize", "load_producer", "inplace_edit", "copy_connectivity"]
+              "subdivision_producer", "int_coordinates", "inverse_pair", "flatten", "normalize", "load_producer", "inplace_edit", "copy_connectivity", "elem_edit", "cloud_in_merge"]
     QUICK_RUNS = 3000
     THOROUGH_RUNS = 300000
     BLOCK = 25
@@ -107,7 +107,7 @@ class C06(Sim):
 
     def _gen_produce(self, r, owner):
         off = self.cfg["producers_off"]
-        kinds = ["raw_surface", "raw_tets", "raw_polyline", "raw_int"]
+        kinds = ["raw_surface", "raw_tets", "raw_polyline", "raw_int", "raw_cloud", "cloud_from_arrays"]
         if "procedural" not in off:
             kinds += ["ring", "ring", "flat_ring", "triangle", "quad", "unit_grid", "unit_triangle", "tetrahedron", "cube", "octahedron",
                       "icosahedron", "cylinder", "torus", "sphere_uv", "icosphere", "chain", "vector_field"]
@@ -132,6 +132,8 @@ class C06(Sim):
         elif k == "raw_tets":
             p, c, _ = volgen.gen_tets(r.fork(("w", self.nmesh)), r.choice([1, 4, 8]))
             ev["points"], ev["cells"] = p, c
+        elif k in ("raw_cloud", "cloud_from_arrays"):
+            ev["points"] = [[round(r.uniform(-3, 3), 3) for _ in range(3)] for _ in range(r.randint(1, 6))]
         elif k == "raw_polyline":
             n = r.randint(2, 7)
             ev["points"] = [[float(i), round(r.uniform(-1, 1), 3), round(r.uniform(-1, 1), 3)] for i in range(n)]
@@ -200,10 +202,12 @@ class C06(Sim):
         P = M.procedural
         fn = None
         clean = True
-        if k in ("raw_surface", "raw_tets", "raw_polyline", "raw_int"):
+        if k in ("raw_surface", "raw_tets", "raw_polyline", "raw_int", "raw_cloud"):
             fn = raw
             if k == "raw_int":
                 self.probes["int_coordinates"] += 1
+        elif k == "cloud_from_arrays":
+            fn = lambda: M.mesh.from_arrays(np.array(ev["points"], dtype=float))
         elif k == "from_arrays":
             fn = lambda: M.mesh.from_arrays(np.array(ev["points"], dtype=float), F=np.array(ev["faces"], dtype=int))
         elif k == "load_obj":
@@ -310,7 +314,7 @@ class C06(Sim):
         rf = self.ref[t]
         ops = ["translate", "translate", "rotate", "scale", "scale_xyz", "normalize", "fit_unit", "to_origin", "flatten", "inverse_pair", "rebind_vertex"]
         if self._inplace_ok(t):
-            ops += ["inplace_edit", "inplace_edit"]
+            ops += ["inplace_edit", "inplace_edit", "elem_edit"]
         op = r.choice(ops)
         ev = {"c": c, "op": op, "t": t}
         n = len(rf.P)
@@ -333,6 +337,8 @@ class C06(Sim):
             ev["v"] = self._vec(r)
             ev["angles"] = [round(r.uniform(-3, 3), 3) for _ in range(3)]
             ev["s"] = r.choice([0.5, 2.0, 4.0, 0.125, -2.0])
+        elif op == "elem_edit":
+            ev["i"] = r.below(1 << 16)
         elif op in ("rebind_vertex", "inplace_edit"):
             ev["i"] = r.below(n)
             ev["k"] = r.below(3)
@@ -366,7 +372,7 @@ class C06(Sim):
         rf = self.ref[ev["t"]]
         if ev["op"] in ("rebind_vertex", "inplace_edit") and ev["i"] >= len(rf.P):
             return False
-        if ev["op"] == "inplace_edit" and not self._inplace_ok(ev["t"]):
+        if ev["op"] in ("inplace_edit", "elem_edit") and not self._inplace_ok(ev["t"]):
             return False
         if ev["op"] in ("normalize", "fit_unit") and self._extent(rf.P) < 1e-6:
             return False
@@ -400,6 +406,10 @@ class C06(Sim):
                 # an editing block works IN PLACE: the mesh passed to it and its result are documented to be the same mesh
                 # (C13: "either unchanged or equal to the result"), so they legitimately move together.  Refreshed, not judged.
                 rf.P = now
+            elif now == rf.P and elems(self.pool[name]) != rf.E and not (target is not None and self._alias_group(name) == self._alias_group(target)):
+                trf = self.ref.get(target)
+                self.violation("never-alias", after, "state_corrupted", "other-mesh-elements-changed", "%s->%s" % (trf.producer if trf else "?", rf.producer),
+                               "%s on %s changed the element lists of mesh %s (%s)" % (after, target, name, rf.producer))
             elif now != rf.P:
                 bad = [i for i in range(min(len(now), len(rf.P))) if now[i] != rf.P[i]][:4]
                 trf = self.ref.get(target)
@@ -445,12 +455,17 @@ class C06(Sim):
                 src_mesh = self.pool[ev["src"]]
                 shared = [cn for cn in ("vertices", "edges", "faces", "cells", "face_corners", "cell_corners", "cell_faces", "connectivity")
                           if hasattr(mesh, cn) and getattr(mesh, cn) is getattr(src_mesh, cn)]
+                for cn in ("vertices", "edges", "faces", "cells"):
+                    if hasattr(mesh, cn) and any(x is y and isinstance(x, (list, np.ndarray)) for x, y in zip(getattr(mesh, cn), getattr(src_mesh, cn))):
+                        shared.append(cn + "[i]")  # the same mutable element object sits in both meshes
                 if shared:
                     self.violation("copy-shares-no-mutable-state", "copy", "state_corrupted", "shared:" + ",".join(shared),
                                    "flags=%r" % (ev["flags"],), "copy(%s, copy_attributes=%r, copy_connectivity=%r) shares %s with its source" % (ev["src"], ev["flags"][0], ev["flags"][1], shared))
             if k == "merge":
                 if len(srcs) != len(set(srcs)):
                     self.probes["merge_same_twice"] += 1
+                if any(not hasattr(self.pool[s_], "edges") for s_ in srcs) and len(srcs) > 1:
+                    self.probes["cloud_in_merge"] += 1
                 expP, expE, off = [], {"edges": [], "faces": [], "cells": []}, 0
                 for s in srcs:
                     sr = self.ref[s]
@@ -544,8 +559,35 @@ class C06(Sim):
                 o = call(lambda: T.scale(T.scale(mesh, ev["s"]), 1.0 / ev["s"]))
             exp = P
             clause = "inverse-pair-restores"
+        elif op == "elem_edit":
+            # rotate one face (or cell) cyclically IN PLACE when it is stored as a mutable row: same element, same orientation, but any
+            # mesh sharing the row object sees it ("a copy shares no mutable state"; "editing the result never changes an input")
+            cont = getattr(mesh, "faces", None) if hasattr(mesh, "faces") and len(getattr(mesh, "faces")) else None
+            rows_ = [j for j in range(len(cont))] if cont is not None else []
+            rows_ = [j for j in rows_ if isinstance(cont[j], (list, np.ndarray))]
+            if not rows_:
+                self.ntrans -= 1
+                self.kinds.pop()
+                return "no-mutable-element"
+            j = rows_[ev["i"] % len(rows_)]
+            self.probes["elem_edit"] += 1
+
+            def edit():
+                row = cont[j]
+                first = row[0] if not isinstance(row, np.ndarray) else row[0].copy()
+                for q in range(len(row) - 1):
+                    row[q] = row[q + 1]
+                row[len(row) - 1] = first
+                if hasattr(mesh, "connectivity"):
+                    mesh.connectivity.clear()
+            o = call(edit)
+            exp = [list(p) for p in P]
+            exact = True
+            clause = "edit-own-mesh"
+            rf.E = None  # re-read below
         elif op == "rebind_vertex":
             def edit():
+
                 mesh.vertices[ev["i"]] = V(ev["p"])
             o = call(edit)
             exp = [list(p) for p in P]
@@ -580,8 +622,12 @@ class C06(Sim):
         ac = rf.producer + ("/int" if rf.producer == "raw_int" else "")
         if not o.ok:
             self.exc_violation(clause, op, o, ac, "%s on %s (%s) raised" % (op, t, rf.producer))
-        if op not in ("rebind_vertex", "inplace_edit") and o.value is not mesh:
+        if op not in ("rebind_vertex", "inplace_edit", "elem_edit") and o.value is not mesh:
             self.violation(clause, op, "wrong_value", "return", ac, "%s does not return the mesh it was given" % op)
+        if rf.E is None:
+            rf.E = elems(mesh)
+        elif o.ok and op not in ("elem_edit",) and elems(mesh) != rf.E and not any(t in self._alias_group(n) for n in self.ref if self.ref[n].producer == "subdivide"):
+            self.violation(clause, op, "state_corrupted", "target-elements-changed", ac, "%s changed the element lists of the mesh it was applied to" % op)
         self._check_pool(op, t, [[float(x) for x in p] for p in exp], exact, clause, ac)
         if op in ("normalize", "fit_unit"):
             now = self.ref[t].P
